@@ -642,6 +642,10 @@ bool exec_one( std::map<uint64_t, World>& worlds, uint64_t& cur, const Tokens& t
                 put_b( out, 102, { r ? 1ull : 0ull }, b.data(), b.size() );
             }
         }
+        else if ( op == "savepath" ) {
+            bool r = w.el->save( std::string( t[1] == "full" ? "/dev/full" : "/nonexistent-directory/for/elfio/out.elf" ) );
+            put_n( out, 102, { r ? 1ull : 0ull } );
+        }
         else if ( op == "validate" ) {
             std::string e = w.el->validate();
             unsigned long long ov = 0, sg = 0;
